@@ -46,7 +46,9 @@ func NewSolver(kind string, timeoutMs int, logPath string) (*Solver, error) {
 	switch kind {
 	case "z3":
 		cmd = exec.Command("z3", "-in")
-	case "z3-new":
+	case "z3-new", "z3-new-t":
+		// z3-new-t: every check runs the default tactic pipeline (simplify, bit-blast, sat) on the current
+		// assertion stack instead of the incremental core; much faster on arithmetic-heavy bit-vector queries
 		cmd = exec.Command("z3-new", "-in")
 	case "cvc5":
 		cmd = exec.Command("cvc5", "--incremental", "--lang=smt2", "--produce-models", fmt.Sprintf("--tlimit-per=%d", timeoutMs))
@@ -216,9 +218,16 @@ func (s *Solver) SyncPC(pc []*Term) {
 
 func (s *Solver) checkSat() SatResult {
 	t0 := time.Now()
-	s.send("(check-sat)")
+	if s.kind == "z3-new-t" {
+		s.send(fmt.Sprintf("(check-sat-using (try-for default %d))", s.timeoutMs))
+	} else {
+		s.send("(check-sat)")
+	}
 	r := s.readResult()
 	s.Time += time.Since(t0)
+	if s.log != nil {
+		fmt.Fprintf(s.log, "; query %d took %d ms\n", s.Queries, time.Since(t0).Milliseconds())
+	}
 	s.Queries++
 	switch r {
 	case Sat:
